@@ -247,13 +247,32 @@ Theorem ex_script_history input wa cs :
 Proof. cbv zeta. destruct (XInv_run cs _ (XInv_init input wa)) as (e & (dops & ->) & R & DK). exists dops. auto. Qed.
 
 (* the dirty test of the model (what q, e, b ask) never reports clean while text and ghost disk differ *)
+Lemma XInv_clean x : XInv x -> snd (lbuf_modified (lb (xs x))) = false -> utext (lb (xs x)) = xdisk x.
+Proof.
+  intros (e & (dops & ->) & R & DK) M.
+  rewrite (flag_eq _ _ R) in M. pose proof (DP.dirty_sound data dops M) as S. cbv zeta in S.
+  destruct R as ((Ln & _) & _). rewrite <- Ln, <- DK. exact S.
+Qed.
+
 Theorem ex_clean_sound input wa cs :
   let x := xrun (xinit input wa) cs in
   snd (lbuf_modified (lb (xs x))) = false -> utext (lb (xs x)) = xdisk x.
+Proof. cbv zeta. apply XInv_clean, XInv_run, XInv_init. Qed.
+
+(* the guard of the filter command `!` (the ex model's own ec_exec, without writeany): on a buffer reported modified it is
+   refused with the text untouched; it filters only a buffer whose text equals the ghost disk *)
+Theorem ex_filter_guard input wa cs loc arg :
+  let x := xrun (xinit input wa) cs in
+  xwa (xs x) = false ->
+  let res := ec_exec rvalid rfind filter loc arg (xs x) in
+  (snd (lbuf_modified (lb (xs x))) = true -> snd res = 1%Z /\ texts (fst res) = texts (xs x)) /\
+  (snd (lbuf_modified (lb (xs x))) = false -> utext (lb (xs x)) = xdisk x).
 Proof.
-  cbv zeta. intro M. destruct (XInv_run cs _ (XInv_init input wa)) as (e & (dops & ->) & R & DK).
-  rewrite (flag_eq _ _ R) in M. pose proof (DP.dirty_sound data dops M) as S. cbv zeta in S.
-  destruct R as ((Ln & _) & _). rewrite <- Ln, <- DK. exact S.
+  cbv zeta. intro W. split.
+  - intro M. unfold ec_exec. rewrite W. unfold bufs_modified.
+    destruct (lbuf_modified (lb (xs (xrun (xinit input wa) cs)))) as [l m] eqn:E. cbn [snd] in M. subst m.
+    unfold lbuf_modified in E. inversion E; subst. cbn. auto.
+  - apply XInv_clean, XInv_run, XInv_init.
 Qed.
 
 (* q without ! after any script: it goes through only when the text equals the ghost disk *)
@@ -279,3 +298,151 @@ Qed.
 
 End Run.
 End Dirty.
+
+(* ---------------------------------------------------------------------------------------- *)
+(* several buffers: the table of ex.c (slot 0 = the current buffer), each buffer with its own file; bufs_switch, the guard
+   of e / b, and the scan of ec_quit are those of DirtyDefs (switch_to, guard_current, quit_scan) on ex-level buffers *)
+Section Table.
+Variable rvalid : bytes -> bool.
+Variable rfind : bytes -> bytes -> bool -> option (nat * nat).
+Variable filter : bytes -> bytes -> option bytes.
+Variable readfile : bytes -> option bytes.
+Variable curpath : bytes.
+Variable fuel : nat.
+
+Definition x_bump (x : xst) : xst := mkx (bump (xs x)) (xdisk x).
+Definition x_flag (x : xst) : bool := snd (lbuf_modified (lb (xs x))).
+(* bufs_modified(idx): lbuf_modified bumps, the answer is the flag *)
+Definition x_bufs_modified (x : xst) : xst * bool := (x_bump x, x_flag x).
+
+Definition x_switch_to (pre : list xst) (b : xst) (r : list xst) : list xst :=
+  match pre with
+  | [] => x_bump b :: r
+  | y :: p => b :: x_bump y :: p ++ r
+  end.
+
+Fixpoint x_quit_scan (pre l : list xst) : list xst * bool :=
+  match l with
+  | [] => (rev pre, true)
+  | b :: r => let '(b', m) := x_bufs_modified b in
+              if m then (x_switch_to (rev pre) b' r, false) else x_quit_scan (b' :: pre) r
+  end.
+
+Inductive tcmd :=
+| TCur (c : xcmd)                                (* a command on the current buffer (XQuit here is the one-buffer q) *)
+| TSwitch (force : bool) (k : nat)               (* b k / e <open file>, with or without ! *)
+| TOpen (force : bool) (data : bytes) (input : list bytes) (wa : bool).     (* e <new file> *)
+
+Fixpoint split_at {A} (k : nat) (l : list A) : option (list A * A * list A) :=
+  match l with
+  | [] => None
+  | x :: l' => match k with O => Some ([], x, l') | S k' => match split_at k' l' with Some (p, y, r) => Some (x :: p, y, r) | None => None end end
+  end.
+
+Definition tstep (t : list xst) (c : tcmd) : list xst :=
+  match t with
+  | [] => match c with TOpen _ data input wa => [xinit data input wa] | _ => [] end
+  | cur :: rest =>
+    match c with
+    | TCur xc => xstep rvalid rfind filter readfile curpath fuel cur xc :: rest
+    | TSwitch force k =>
+      if negb force && x_flag cur then x_bump cur :: rest               (* refused: "buffer modified" *)
+      else match split_at k (cur :: rest) with
+           | Some (pre, b, r) => x_switch_to pre b r
+           | None => cur :: rest
+           end
+    | TOpen force data input wa =>
+      if negb force && x_flag cur then x_bump cur :: rest
+      else xinit data input wa :: x_bump cur :: rest
+    end
+  end.
+
+Definition trun (t : list xst) (cs : list tcmd) : list xst := fold_left tstep cs t.
+
+Definition TInv (t : list xst) : Prop := Forall (fun x => exists data, XInv data x) t.
+
+Lemma XInv_bump data x : XInv data x -> XInv data (x_bump x).
+Proof. intro H. exact (XInv_step data rvalid rfind filter readfile curpath fuel x XWriteOther H). Qed.
+
+Lemma split_at_Forall {A} (P : A -> Prop) : forall k l p y r, split_at k l = Some (p, y, r) -> Forall P l -> Forall P p /\ P y /\ Forall P r.
+Proof.
+  induction k as [|k IH]; intros l p y r H F; destruct l as [|x l]; try discriminate; cbn [split_at] in H.
+  - inversion H; subst. inversion F; subst. auto.
+  - destruct (split_at k l) as [[[p' y'] r']|] eqn:E; [|discriminate]. inversion H; subst. inversion F; subst.
+    destruct (IH _ _ _ _ E H3) as (A1 & A2 & A3). auto.
+Qed.
+
+Lemma TInv_switch pre b r : TInv pre -> (exists data, XInv data b) -> TInv r -> TInv (x_switch_to pre b r).
+Proof.
+  intros P (d & B) R. unfold x_switch_to, TInv in *. destruct pre as [|y p].
+  - constructor; [exists d; apply XInv_bump, B | exact R].
+  - inversion P as [|? ? (dy & Y) P']; subst. constructor; [exists d; exact B|]. constructor; [exists dy; apply XInv_bump, Y|].
+    apply Forall_app. auto.
+Qed.
+
+Lemma TInv_step t c : TInv t -> TInv (tstep t c).
+Proof.
+  intro H. unfold tstep. destruct t as [|cur rest].
+  - destruct c; try constructor; [eexists; exact (XInv_init _ rvalid rfind filter readfile _ _) | constructor].
+  - inversion H as [|? ? (d & C) R]; subst. destruct c as [xc|force k|force data input wa].
+    + constructor; [exists d; apply XInv_step, C | exact R].
+    + destruct (negb force && x_flag cur); [constructor; [exists d; apply XInv_bump, C | exact R]|].
+      destruct (split_at k (cur :: rest)) as [[[pre b] r]|] eqn:E; [|exact H].
+      destruct (split_at_Forall _ _ _ _ _ _ E H) as (A1 & A2 & A3). apply TInv_switch; assumption.
+    + destruct (negb force && x_flag cur); [constructor; [exists d; apply XInv_bump, C | exact R]|].
+      constructor; [eexists; exact (XInv_init _ rvalid rfind filter readfile _ _)|]. constructor; [exists d; apply XInv_bump, C | exact R].
+Qed.
+
+Lemma TInv_run : forall cs t, TInv t -> TInv (trun t cs).
+Proof. induction cs as [|c cs IH]; intros t H; [exact H|]. unfold trun in *. cbn [fold_left]. apply IH, TInv_step, H. Qed.
+
+Lemma x_flag_bump x : x_flag (x_bump x) = x_flag x.
+Proof. reflexivity. Qed.
+
+(* the scan of ec_quit says "exit" only when no buffer is reported modified *)
+Lemma x_quit_scan_true : forall l pre, snd (x_quit_scan pre l) = true -> Forall (fun x => x_flag x = false) l.
+Proof.
+  induction l as [|b r IH]; intros pre H; [constructor|]. cbn [x_quit_scan x_bufs_modified] in H.
+  destruct (x_flag b) eqn:F; [discriminate|]. constructor; [exact F | apply (IH _ H)].
+Qed.
+
+(* ... and when it refuses, the buffer it makes current is one that is reported modified *)
+Lemma x_quit_scan_false : forall l pre, snd (x_quit_scan pre l) = false ->
+  exists cur rest, fst (x_quit_scan pre l) = cur :: rest /\ x_flag cur = true.
+Proof.
+  induction l as [|b r IH]; intros pre H; [discriminate|]. cbn [x_quit_scan x_bufs_modified] in *.
+  destruct (x_flag b) eqn:F; [|apply IH, H]. cbn [fst]. unfold x_switch_to. destruct (rev pre); eexists; eexists; split; try reflexivity; exact F.
+Qed.
+
+(* q without ! over ANY table reached by ANY table script: it exits only if EVERY buffer's text equals its ghost disk *)
+Theorem ex_table_quit_sound data input wa cs :
+  let t := trun [xinit data input wa] cs in
+  snd (x_quit_scan [] t) = true -> Forall (fun x => utext (lb (xs x)) = xdisk x) t.
+Proof.
+  cbv zeta. intro Q. pose proof (x_quit_scan_true _ _ Q) as F.
+  assert (I : TInv (trun [xinit data input wa] cs)) by (apply TInv_run; constructor; [eexists; exact (XInv_init _ rvalid rfind filter readfile _ _) | constructor]).
+  revert F I. generalize (trun [xinit data input wa] cs). induction l as [|x l IH]; intros F I; [constructor|].
+  inversion F; subst. inversion I as [|? ? (d & X) I']; subst. constructor; [apply (XInv_clean d x X); assumption | apply IH; assumption].
+Qed.
+
+(* a switch / open without ! is refused (only the command counter moves) while the current buffer is reported modified,
+   and goes through only when its text equals its ghost disk *)
+Theorem ex_table_guard data input wa cs c :
+  let t := trun [xinit data input wa] cs in
+  (exists k, c = TSwitch false k) \/ (exists d i w, c = TOpen false d i w) ->
+  match t with
+  | [] => True
+  | cur :: rest =>
+    (x_flag cur = true -> tstep t c = x_bump cur :: rest) /\
+    (x_flag cur = false -> utext (lb (xs cur)) = xdisk cur)
+  end.
+Proof.
+  cbv zeta. intro HC.
+  assert (I : TInv (trun [xinit data input wa] cs)) by (apply TInv_run; constructor; [eexists; exact (XInv_init _ rvalid rfind filter readfile _ _) | constructor]).
+  destruct (trun [xinit data input wa] cs) as [|cur rest]; [exact Logic.I|].
+  inversion I as [|? ? (d & X) I']; subst. split.
+  - intro F. destruct HC as [(k & ->)|(d' & i & w & ->)]; cbn [tstep negb andb]; rewrite F; reflexivity.
+  - intro F. apply (XInv_clean d cur X F).
+Qed.
+
+End Table.
